@@ -354,7 +354,9 @@ SPECS["C17"] = dict(
     assumptions=["dial_addr spellings outside the documented 'IP or domain, port optional, @name' forms are not in the alphabet"],
     parts=[dict(name="addr", pkg="internal/upstream", run="TestVerifC17Addr", go="go1.26", env=E3ENV, engines=E3ENGINES,
                 files=dict(UPSTREAM_COMMON, **{"harness/upstream/zz_verif_c17_test.go": "internal/upstream/zz_verif_c17_test.go"}), budget={"quick": 120, "thorough": 120}),
-           router_part("tls", "TestVerifC17TLS", ["zz_verif_c17_test.go", "zz_verif_c03_test.go"], shards=1, gomaxprocs=4)],
+           router_part("tls", "TestVerifC17TLS", ["zz_verif_c17_test.go", "zz_verif_c03_test.go"], shards=1, gomaxprocs=4),
+           dict(name="quic-addr", pkg="internal/upstream", run="TestVerifC17Quic", go="go1.26", env=E3ENV, engines=E3ENGINES, shards=1, gomaxprocs=4,
+                files=dict(UPSTREAM_COMMON, **{"harness/upstream/zz_verif_c17q_test.go": "internal/upstream/zz_verif_c17q_test.go"}), budget={"quick": 120, "thorough": 120})],
 )
 
 SPECS["C18"] = dict(
